@@ -117,8 +117,8 @@ func (s *scheduler) addRole(name string, fn func(r *role)) *role {
 	ready := make(chan struct{})
 	go func() {
 		r.gid = curGID()
-		close(ready)
 		r.parked.Store("start")
+		close(ready)
 		<-r.release
 		fn(r)
 		atomic.StoreInt32(&r.done, 1)
